@@ -61,6 +61,15 @@ def sandbox_side(src, inputs, calls, files=None, threaded=False):
             out['calls'].append(['escaped', type(e).__name__ + ': ' + str(e)[:80]])
     out['stdout'] = sb.raw_output
     out['globals_after'] = dump(sb)
+    # the line view of the printed text: per execution, the text without trailing blank space, split at line breaks,
+    # each line without trailing blank space (leading blank space is part of the line)
+    want = []
+    for c in sb._context:
+        text = getattr(c, 'output', None)
+        if text:
+            want += [line.rstrip() for line in text.rstrip().split('\n')]
+    out['lines'] = list(sb.output)
+    out['lines_expected'] = want
     return out
 
 
